@@ -2,6 +2,7 @@
 From Coq Require Import List NArith ZArith Bool Arith Lia Permutation.
 Import ListNotations.
 From BioVerif Require Import Model.Pipeline Spec.PipelineSpec.
+From BioVerif Require Proofs.PipelineLoc.
 From BioVerif Require Model.AdjRIBIn Model.AdjRIBOut Model.LocRIBClients Model.UpdateSender Model.LocView
   Spec.LocRIBClientsSpec Spec.ExportViewSpec Spec.UpdateSenderSpec Proofs.ExportViewD.
 Local Open Scope nat_scope.
@@ -86,7 +87,7 @@ Section C10Guards.
     set (el := AdjRIBOut.elog (ss_out _ ex_s2)). vm_compute in el.
     set (tb := AdjRIBOut.tbl (ss_out _ ex_s2)). vm_compute in tb.
     subst el tb. unfold AdjRIBOut.tbl_get. cbn [rev app map lab_of filter fst snd].
-    unfold adj_rib_out. cbn [fold_left rib_step]. unfold rib_upd, rib_empty, upfx, pfx_eqb. cbn [x_addr x_len].
+    unfold adj_rib_out. cbn [fold_left rib_step]. unfold rib_upd, rib_empty. rewrite !PipelineLoc.upfx_eqb.
     change (wpid (sc_us AdjRIBOut.chain ex_c2)) with (fun _ : path => 0%N). cbv beta.
     rewrite (N.eqb_sym 1 p).
     destruct (N.eqb p 1) eqn:E1; cbn [andb filter map rev app find]; [|now destruct (N.eqb pid 0)].
